@@ -521,6 +521,9 @@ def run(chk, tier, only_rule=None):
     r17_4(chk, facts)
     r17_10(chk, facts)
     r17_11(chk, facts)
+    # the fallback route builds a basic_json from cursor events: each numeric event is read with the getter of its own type (R03.12)
+    from . import c03
+    c03.r03_12(chk, F.load(['core'], tier))
     # the decoders read keys and strings as views of the current event
     from . import c03
     c03.r03_9(chk, tier)
